@@ -211,14 +211,18 @@ func (e *vfc29Env) runToQuiescence(ctx context.Context, core *vfcfbCore, dir str
 func TestVF_C29(t *testing.T) {
 	r := vfkit.Start(t, "C29")
 	defer r.Finish()
-	r.Rule("case = one generated set of 3..6 tiny real TSDB blocks (aligned ranges; two replica streams with a replica label, default and penalty merge; time-shifted overlap with vertical compaction; " +
+	r.Rule("case = one generated set of 4..8 tiny real TSDB blocks (aligned ranges; two replica streams with a replica label, default and penalty merge; time-shifted overlap with vertical compaction; " +
 		"a no-compact marked block; an empty block; two groups) x delete delay {0,48h} x lister; a real compactor (cmd/thanos wiring: BucketCompactor, planner, grouper, LeveledCompactor, Syncer.GarbageCollect, BlocksCleaner, " +
-		"BestEffortCleanAbortedPartialUploads) runs cycles to quiescence; a crash-free run yields M mutating bucket operations and the bucket content after each; then for every k <= M a fresh compactor with a fresh working directory is started on the content left by a crash at mutation k " +
-		"and run to quiescence; for every 5th k (thorough: all) the crash is additionally produced live (fail-stop of the bucket at mutation k + cancellation) and the half-written working directory is kept for the restart; thorough additionally crashes the restarted run once more; oracle after EVERY mutating operation of every run: in both store-gateway views " +
+		"BestEffortCleanAbortedPartialUploads) runs cycles to quiescence; a crash-free run yields the bucket-changing operations, the bucket content after each, and the compactor's own reads; enumerated faults: " +
+		"(1) CRASH after every bucket-changing operation k (fresh compactor + fresh directory on the content left behind; for every 8th k, thorough all, produced live by fail-stop of the bucket + cancellation with the working directory kept; " +
+		"thorough crashes the restarted run once more); (2) TRANSIENT failure of every bucket-changing operation k, everything later works: variant 'lost' (not applied, error) and variant 'applied' (applied, but reported as failed) - " +
+		"quick alternates the variants over k, thorough runs both; (3) TRANSIENT failure of the compactor's own reads (block download, exists checks, listings; sync reads belong to C33) - quick every 4th, thorough all; " +
+		"after a transient fault the cycle finishes or returns its error, then a fresh compactor runs to quiescence; oracle after EVERY applied mutating operation of every run: in both store-gateway views " +
 		"(real MetaFetcher + IgnoreDeletionMarkFilter + DefaultDeduplicateFilter; deletion marks not yet effective / all effective) the complete selected blocks hold every sample of the original blocks and no other sample; " +
-		"at quiescence with all marks effective every sample is held exactly once; distinct = (set, crash point); non-trivial = the crash was injected")
-	nsets := r.N(7, 63)
+		"at quiescence with all marks effective every sample is held exactly once; distinct = (set, fault kind, fault position); non-trivial = the fault was injected")
+	nsets := r.N(5, 42)
 	r.Assume("a crash is modelled as fail-stop of the bucket at a mutating operation (every later operation fails) plus cancellation; real SIGKILL of a child process is not used")
+	r.Assume("single faults: one crash (thorough: two) or one transient failure per history; after a cycle that returned an error the compactor is restarted as a fresh process")
 	r.Assume("store gateway wiring is mirrored from cmd/thanos/store.go; replica labels are ignored when comparing samples iff the compactor is configured to deduplicate on them")
 	r.Assume("a selected block serves its samples only while every file listed in its meta.json exists in the bucket")
 	ctx := context.Background()
@@ -277,8 +281,10 @@ func TestVF_C29(t *testing.T) {
 		tSet = time.Now()
 		core, st := newRun(snap, "crash-free", 0)
 		states := []map[string][]byte{snap}
+		var appliedSeq []int // MutSeq of the operations that changed the bucket (deleting a non-existent directory marker does not)
 		core.afterMut = func(op vfcfbOp) {
 			states = append(states, core.mem.Objects()) // serialised by the fault bucket
+			appliedSeq = append(appliedSeq, op.MutSeq)
 			env.check(ctx, core, st, op)
 		}
 		dir, _ := os.MkdirTemp(scratch, "cf")
@@ -294,6 +300,7 @@ func TestVF_C29(t *testing.T) {
 		}
 		env.final(ctx, core, st)
 		_, M, _ := core.counts()
+		RC := core.otherReads() // reads issued by the compactor proper (downloads, exists checks, listings of block.Delete) in the crash-free run
 		t.Logf("set %d (%s): build %v, crash-free run %v, M=%d mutations (%d applied), %d samples", c, set.Name, tBuild, time.Since(tSet), M, len(states)-1, len(env.orig))
 		// M counts attempted mutating operations; some (deleting a directory marker object that does not exist) change nothing.
 		// states[i] = bucket content after the i-th APPLIED mutation; a crash leaves one of states[0..A-1] behind.
@@ -343,17 +350,56 @@ func TestVF_C29(t *testing.T) {
 		tSet = time.Now()
 		type job struct {
 			k    int
-			live bool // true: the crash is produced by a real fail-stop run and the half-written working directory is kept for the restart
+			live bool   // true: the crash is produced by a real fail-stop run and the half-written working directory is kept for the restart
+			kind string // "": crash; otherwise a transient fault: "mutation-lost", "mutation-applied" (applied but reported as failed), "read" (k-th non-sync read)
 		}
 		jobs := make(chan job)
 		var wg sync.WaitGroup
-		for w := 0; w < 4; w++ {
+		for w := 0; w < 8; w++ {
 			wg.Add(1)
 			go func() {
 				defer wg.Done()
 				for j := range jobs {
 					k := j.k
 					dir, _ := os.MkdirTemp(scratch, "crash")
+					if j.kind != "" {
+						// one operation fails once, everything later works; the cycle finishes or returns its error; then a fresh compactor runs to quiescence
+						phase := "transient-" + j.kind
+						core, st := newRun(snap, phase, k)
+						switch j.kind {
+						case "mutation-lost":
+							core.armTransient(k, "lost", 0)
+						case "mutation-applied":
+							core.armTransient(k, "applied", 0)
+						default:
+							core.armTransient(0, "", k)
+						}
+						_, quiescent, err := env.runToQuiescence(ctx, core, dir)
+						hit := core.transientHit()
+						switch {
+						case hit == nil:
+							r.Count("transient_fault_not_reached", 1)
+							if quiescent {
+								env.final(ctx, core, st)
+							}
+						case err != nil:
+							r.Distinct(fmt.Sprintf("%d|%s|%d|%s", c, set.Name, k, j.kind))
+							r.Count("transient_"+j.kind+"_then_cycle_error", 1)
+							if k%2 == 0 {
+								_ = os.RemoveAll(dir)
+								dir, _ = os.MkdirTemp(scratch, "restart")
+							}
+							restart(core, st, k, dir, false)
+						case quiescent:
+							r.Distinct(fmt.Sprintf("%d|%s|%d|%s", c, set.Name, k, j.kind))
+							r.Count("transient_"+j.kind+"_absorbed", 1)
+							env.final(ctx, core, st)
+						default:
+							r.Inconclusive(fmt.Sprintf("run with transient %s fault %d not quiescent within %d cycles on set %s", j.kind, k, len(set.Specs)+3, set.Name))
+						}
+						_ = os.RemoveAll(dir)
+						continue
+					}
 					if !j.live {
 						// the process died at mutating operation k: the bucket holds the first k-1 mutations; fresh process, fresh directory
 						core, st := newRun(states[k], "after-restart-1", k)
@@ -384,16 +430,31 @@ func TestVF_C29(t *testing.T) {
 			}()
 		}
 		for k := 1; k < A; k++ { // crash right after the k-th applied mutation (k=0 is the crash-free run itself, k=A its end state)
-			jobs <- job{k, false}
+			jobs <- job{k: k}
 		}
-		for k := 1; k <= M; k++ {
-			if r.Thorough() || k%5 == 1 {
-				jobs <- job{k, true}
+		for i, k := range appliedSeq {
+			if r.Thorough() || i%8 == 0 {
+				jobs <- job{k: k, live: true}
+			}
+		}
+		// transient faults: every bucket-changing operation k fails once - quick: the two variants alternate over the operations, thorough: both
+		for i, k := range appliedSeq {
+			if r.Thorough() || (i+c)%2 == 0 {
+				jobs <- job{k: k, kind: "mutation-lost"}
+			}
+			if r.Thorough() || (i+c)%2 == 1 {
+				jobs <- job{k: k, kind: "mutation-applied"}
+			}
+		}
+		// transient faults of the compactor's own reads (the sync reads are C33's): quick every 4th, thorough all
+		for k := 1; k <= RC; k++ {
+			if r.Thorough() || k%4 == c%4 {
+				jobs <- job{k: k, kind: "read"}
 			}
 		}
 		close(jobs)
 		wg.Wait()
-		t.Logf("set %d: %d crash points in %v", c, A, time.Since(tSet))
+		t.Logf("set %d: %d crash points, %d mutations and %d compactor reads for transient faults in %v", c, A, M, RC, time.Since(tSet))
 	}
-	r.Require(int64(nsets*40), nsets*8)
+	r.Require(int64(nsets*100), nsets*20)
 }
